@@ -81,7 +81,13 @@ func genC20(r *Rng, idx int, tier string) *World {
 				ops = append(ops, Op{T: t, K: "many", N: pick(r, live), B: r.Pct(50)}) // >30 params
 			case k < 88:
 				j := r.Intn(len(live))
-				ops = append(ops, Op{T: t, K: "destroy", N: live[j], B: r.Pct(70)})
+				op := Op{T: t, K: "destroy", N: live[j], B: r.Pct(70)}
+				if nT == 1 && r.Pct(30) {
+					// single-goroutine worlds only: the caller keeps its reference and writes through it after
+					// Destroy (legal Go, no race) - the next owner must still start empty
+					op.Args = []string{"stale"}
+				}
+				ops = append(ops, op)
 				live = append(live[:j], live[j+1:]...)
 			case k < 90:
 				ops = append(ops, Op{T: t, K: "nildestroy"})
@@ -268,6 +274,11 @@ func execC20(w *World, st *Stats) (*Violation, RunInfo) {
 				s.ctx.Set("dirty", "1")
 			}
 			s.ctx.Destroy()
+			if len(op.Args) > 0 && op.Args[0] == "stale" {
+				s.ctx.Set("stale", "1")
+				s.ctx.Path = "/stale"
+				s.ctx.SetRouterName("stale")
+			}
 			delete(ss, op.N)
 			return "ok"
 		case "nildestroy":
